@@ -318,10 +318,7 @@ theorem C15_executor_paths_agree (ppOf : Int → Nat → Nat) (e : Env) (script 
     (sessExec ppOf e script q).1 =
       (if callerDead e q.ctx then ⟨errIter .ctx, script, []⟩ else connExec (ppOf q.pf) script e.cached q) ∧
     (∀ n, (sessExec ppOf e script q).1.iter.next = some n → n.qry = { q with pageState := n.qry.pageState }) := by
-  have hfetch : (sessExec ppOf e script q).1 =
-      (if callerDead e q.ctx then ⟨errIter .ctx, script, []⟩ else connExec (ppOf q.pf) script e.cached q) := by
-    unfold sessExec
-    by_cases hs : (q.idem && decide (0 < q.spec)) = true <;> cases hd : callerDead e q.ctx <;> simp [hs, dead, hd]
+  have hfetch := sessExec_fst ppOf e script q
   refine ⟨hfetch, ?_⟩
   rw [hfetch]
   cases hd : callerDead e q.ctx with
@@ -355,6 +352,15 @@ theorem C15_cancel_surfaces (ppOf : Int → Nat → Nat) (e : Env) (it : It) (n 
     have hsr2 : scanRow { err := some Fail.ctx, pos := 0, rows := [], next := none, pagingState := [] } = none := by
       simp [scanRow]
     simp [scanF, hsr, he, hn, force_eq ppOf e it n he hp hn, hx, hsr2, errIter]
+
+open Paging.Hist in
+/-- **A Scan that returns false has ended the iterator** (the recursion of Scan through page switches —
+    empty pages, a prefetched page, failed fetches — always terminates within the model's fuel): after it,
+    the iterator carries its error or has neither a row nor a next page left. This is the `finished` of
+    `C15_iter_independent_of_rebind`: every drained iterator satisfies it. -/
+theorem C15_scan_false_is_finished (ppOf : Int → Nat → Nat) (e : Env) (it : It)
+    (h : (scanF ppOf (scanFuel it) e it).2.2 = false) : finished (scanF ppOf (scanFuel it) e it).1 :=
+  scanF_fuel ppOf e it h
 
 /-- non-vacuity: Bind(1).Iter(), one row consumed, Bind(2) + Idempotent + speculative policy on the SAME
     object, a second Iter() drained first, a prefetch of the first iterator, then the first drained: each
